@@ -429,6 +429,32 @@ theorem Inv_secretJob (fuel : Nat) (s : St) (l : Lease) (a : Nat) (h : Inv s) (h
       · exact Inv_markIrrevocable s2 l hb hl2 hv2
       · exact ih s2 _ hb hl2 hv2
 
+theorem Inv_secretJobF (fuel : Nat) (s : St) (l : Lease) (a f : Nat) (h : Inv s) (hl : l ∈ s.stored) (hv : live s l) :
+    Inv (secretJobF fuel s l a f) := by
+  induction fuel generalizing s a f with
+  | zero => exact Inv_congr s _ h rfl rfl rfl rfl rfl rfl rfl rfl
+  | succ n ih =>
+    unfold secretJobF
+    dsimp only
+    have h1 := Inv_loadMark s h l hl hv
+    have hl1 : l ∈ (loadMark s l).stored := by rw [(loadMark_frame s l).1]; exact hl
+    have hv1 : live (loadMark s l) l := (live_loadMark s l l).mpr hv
+    generalize loadMark s l = s1 at h1 hl1 hv1 ⊢
+    have hb := Inv_backendRevoke s1 l.id h1
+    obtain ⟨b1, _, _, _, _, b6, b7, _⟩ := backendRevoke_frame s1 l.id
+    have hl2 : l ∈ (backendRevoke s1 l.id).2.stored := by rw [b1]; exact hl1
+    have hv2 : live (backendRevoke s1 l.id).2 l := (live_congr s1 _ l b6 b7).mpr hv1
+    generalize backendRevoke s1 l.id = r at hb hl2 hv2 ⊢
+    obtain ⟨ok, s2⟩ := r
+    simp only at hb hl2 hv2 ⊢
+    split
+    · exact Inv_delete _ hb _
+    · split
+      · cases f with
+        | zero => exact Inv_markIrrevocable s2 l hb hl2 hv2
+        | succ f' => exact ih s2 _ _ hb hl2 hv2
+      · exact ih s2 _ _ hb hl2 hv2
+
 theorem Inv_settle (fuel : Nat) (s : St) (now : Int) (h : Inv s) : Inv (settle fuel s now) := by
   induction fuel generalizing s with
   | zero => exact Inv_congr s _ h rfl rfl rfl rfl rfl rfl rfl rfl
@@ -1084,6 +1110,33 @@ theorem Inv_applyOp (s : St) (o : Op) (h : Inv s) : Inv (applyOp s o).1 := by
           · exact hr
           · exact Inv_settle _ _ _ hr
         · exact Inv_settle _ _ _ (Inv_lazyRevoke _ _ _ h)
+  | revokeLoadFault id now =>
+    simp only [applyOp, revokeLoadFault]
+    split
+    · exact h
+    · rename_i l hl
+      obtain ⟨_, hmem⟩ := find?_some_id s id l hl
+      split
+      · exact h
+      · rename_i hu
+        have hv : live s l := by simpa [live] using hu
+        split
+        · exact h
+        · dsimp only
+          apply Inv_settle
+          have h1 := Inv_loadMark s h l hmem hv
+          have hm1 : l ∈ (loadMark s l).stored := by rw [(loadMark_frame s l).1]; exact hmem
+          have hv1 := (live_loadMark s l l).mpr hv
+          have h2 := Inv_replace _ h1 l { l with expiry := some now } hm1 hv1 rfl rfl
+          apply Inv_secretJobF _ _ _ _ _ h2
+          · rw [(updatePending_frame _ _).1]; exact mem_putLease _ _
+          · have e6 : (updatePending (putLease (loadMark s l) { l with expiry := some now }) { l with expiry := some now }).sealed = s.sealed := by
+              rw [(updatePending_frame _ _).2.2.1, (putLease_frame _ _).2.2.2.2.2.2.2.1, (loadMark_frame s l).2.1]
+            have e7 : (updatePending (putLease (loadMark s l) { l with expiry := some now }) { l with expiry := some now }).held = s.held := by
+              rw [(updatePending_frame _ _).2.2.2.1, (putLease_frame _ _).2.2.2.2.2.2.2.2.1, (loadMark_frame s l).2.2.1]
+            rw [live_congr s _ _ e6 e7]
+            rw [live_iff] at hv ⊢
+            exact hv
   | tokRevoke id now =>
     simp only [applyOp, tokRevoke]
     split
@@ -1197,6 +1250,61 @@ theorem secretJob_budget (fuel : Nat) (s : St) (l : Lease) (a : Nat) (hf : a + f
           simp only [ge_iff_le, Bool.or_eq_true, decide_eq_true_eq, not_or] at hnot
           exact Nat.lt_of_not_le hnot.1
         have := ih s1 (a + 1) (by omega) hlt
+        refine ⟨this.1.trans hfuel, ?_, this.2.2⟩
+        have h2 := this.2.1
+        unfold maxRevokeAttempts at *
+        omega
+
+/-- the same with `f` failing storage reads at the marking point: still resolved, after at most `f` further calls -/
+theorem secretJobF_budget (fuel : Nat) (s : St) (l : Lease) (a f : Nat) (hf : a + fuel ≥ maxRevokeAttempts + 1 + f)
+    (ha : a < maxRevokeAttempts) :
+    (secretJobF fuel s l a f).outOfFuel = s.outOfFuel ∧
+    (secretJobF fuel s l a f).calls ≤ s.calls + (maxRevokeAttempts - a) + f ∧
+    ((¬ sid (secretJobF fuel s l a f) l.id) ∨
+      (l.id ∈ (secretJobF fuel s l a f).irrevocable ∧ ∃ l' ∈ (secretJobF fuel s l a f).stored, l'.id = l.id ∧ l'.irrevocable = true)) := by
+  induction fuel generalizing s a f with
+  | zero => unfold maxRevokeAttempts at *; omega
+  | succ n ih =>
+    unfold secretJobF
+    dsimp only
+    have hcalls : (backendRevoke (loadMark s l) l.id).2.calls = s.calls + 1 := by
+      rw [(backendRevoke_frame _ _).2.2.2.2.2.2.2.2.2.2.1, (loadMark_frame s l).2.2.2.2.1]
+    have hfuel : (backendRevoke (loadMark s l) l.id).2.outOfFuel = s.outOfFuel := by
+      rw [(backendRevoke_frame _ _).2.2.2.2.2.2.2.2.2.1, (loadMark_frame s l).2.2.2.2.2.1]
+    generalize backendRevoke (loadMark s l) l.id = r at hcalls hfuel ⊢
+    obtain ⟨ok, s1⟩ := r
+    simp only at hcalls hfuel ⊢
+    split
+    · refine ⟨hfuel, ?_, Or.inl ?_⟩
+      · show s1.calls ≤ _; unfold maxRevokeAttempts at *; omega
+      · rintro ⟨l', hl', hid⟩
+        have : l' ∈ s1.stored.filter (·.id != l.id) := hl'
+        have := (List.mem_filter.mp this).2
+        simp [hid] at this
+    · split
+      · cases f with
+        | zero =>
+          obtain ⟨hc, ho, _, hm⟩ := markIrrevocable_frame s1 l
+          refine ⟨ho.trans hfuel, ?_, Or.inr ⟨hm, ?_⟩⟩
+          · rw [hc]; unfold maxRevokeAttempts at *; omega
+          · have hmp := mem_putLease s1 { l with irrevocable := true }
+            refine ⟨{ l with irrevocable := true }, hmp, rfl, ?_⟩
+            exact rfl
+        | succ f' =>
+          have hmin : a ≤ min (a + 1) (maxRevokeAttempts - 1) ∧ min (a + 1) (maxRevokeAttempts - 1) < maxRevokeAttempts := by
+            unfold maxRevokeAttempts at *; omega
+          generalize min (a + 1) (maxRevokeAttempts - 1) = m at hmin ⊢
+          have := ih s1 m f' (by omega) hmin.2
+          dsimp only
+          refine ⟨this.1.trans hfuel, ?_, this.2.2⟩
+          have h2 := this.2.1
+          unfold maxRevokeAttempts at *
+          omega
+      · rename_i hnot
+        have hlt : a + 1 < maxRevokeAttempts := by
+          simp only [ge_iff_le, Bool.or_eq_true, decide_eq_true_eq, not_or] at hnot
+          exact Nat.lt_of_not_le hnot.1
+        have := ih s1 (a + 1) f (by omega) hlt
         refine ⟨this.1.trans hfuel, ?_, this.2.2⟩
         have h2 := this.2.1
         unfold maxRevokeAttempts at *
